@@ -519,6 +519,16 @@ class DataFileManager:
             str(f["name"]) for f in iceberg_schema.fields if f.get("required", False)
         }
 
+        # Columns whose Arrow conversion silently alters values it cannot
+        # represent (everything else raises inside pyarrow): fractions are
+        # truncated in integer columns, finite values overflow to inf in 32-bit
+        # float columns, and the time of day is dropped in date columns.
+        typed = {
+            str(f["name"]): f.get("type")
+            for f in iceberg_schema.fields
+            if f.get("type") in ("int", "long", "float", "date")
+        }
+
         for i, record in enumerate(records):
             unknown = {str(k) for k in record.keys()} - allowed
             if unknown:
@@ -531,6 +541,39 @@ class DataFileManager:
                     raise ValueError(
                         f"Record {i} is missing required field '{name}' (or it is None)"
                     )
+            for name, f_type in typed.items():
+                value = record.get(name)
+                if value is None:
+                    continue
+                if not self._value_representable(value, f_type):
+                    raise ValueError(
+                        f"Record {i}: value {value!r} of field '{name}' cannot be represented "
+                        f"in a column of type '{f_type}' and would be silently altered"
+                    )
+
+    @staticmethod
+    def _value_representable(value: Any, f_type: Any) -> bool:
+        """False for the values pyarrow would store ALTERED instead of rejecting."""
+        import datetime as _dt
+        import decimal as _decimal
+        import math as _math
+
+        if f_type in ("int", "long"):
+            if isinstance(value, float):
+                return not _math.isfinite(value) or value.is_integer()  # nan/inf: pyarrow raises
+            if isinstance(value, _decimal.Decimal):
+                return not value.is_finite() or value == value.to_integral_value()
+        elif f_type == "float":
+            if isinstance(value, (int, float)) and not isinstance(value, bool):
+                try:
+                    as_float = float(value)
+                except OverflowError:
+                    return False
+                return not _math.isfinite(as_float) or abs(as_float) <= 3.4028234663852886e38
+        elif f_type == "date":
+            if isinstance(value, _dt.datetime):
+                return value.time() == _dt.time(0, 0) and value.tzinfo is None
+        return True
 
     def write_data_file(
         self,
